@@ -534,6 +534,7 @@ static void sess_##P(rng_t *r, uint64_t idx)                                    
             vf_eq("C14", "sess:" #P ":packet-ciphertext", "packet i vs one-shot under N+i", c, exp, mlen + 16, "\"n0\":\"%s\",\"packet\":%u,\"chain\":%u", vf_h(n0, 16), i, chain); \
             /* the nonce field was right: then a wrong packet is (also) a wrong incremental encryption */ \
             if (nonce_ok) vf_eq("C01", "sess:" #P ":packet-ciphertext", "packet i of a session vs one-shot (nonce field correct)", c, exp, mlen + 16, "\"n0\":\"%s\",\"packet\":%u,\"mlen\":%zu", vf_h(n0, 16), i, mlen); \
+            if (nonce_ok) vf_eq("C07", "sess:" #P ":packet-ciphertext", "packet i on a used state vs one-shot (nonce field correct)", c, exp, mlen + 16, "\"n0\":\"%s\",\"packet\":%u,\"mlen\":%zu", vf_h(n0, 16), i, mlen); \
             vf_out(c, mlen + 16);                                                                     \
         } else {                                                                                      \
             int res;                                                                                  \
@@ -541,7 +542,11 @@ static void sess_##P(rng_t *r, uint64_t idx)                                    
             P##_aead_decrypt_block(st, exp, m2, mlen);                                                \
             res = P##_aead_decrypt_finalize(st, exp + mlen);                                          \
             if ((mode == 1) != (res >= 0)) vf_violation("C14", "sess:" #P ":packet-decrypt", "\"n0\":\"%s\",\"packet\":%u,\"mode\":%d,\"res\":%d", vf_h(n0, 16), i, mode, res); \
-            if (nonce_ok && (mode == 1) != (res >= 0)) vf_violation("C02", mode == 1 ? "sess:" #P ":valid-packet-rejected" : "sess:" #P ":forged-packet-accepted", "\"n0\":\"%s\",\"packet\":%u,\"mlen\":%zu,\"res\":%d", vf_h(n0, 16), i, mlen, res); \
+            /* the packet was made by the reference under N+i, the nonce the session must be using: a genuine packet that is rejected \
+               (or a forged one that is accepted) breaks C02 for the user whatever the root cause; nonce_field_ok = 0 points at C14 */ \
+            if ((mode == 1) != (res >= 0)) vf_violation("C02", mode == 1 ? "sess:" #P ":valid-packet-rejected" : "sess:" #P ":forged-packet-accepted", "\"n0\":\"%s\",\"packet\":%u,\"mlen\":%zu,\"res\":%d,\"nonce_field_ok\":%d", vf_h(n0, 16), i, mlen, res, nonce_ok); \
+            if (nonce_ok && mode == 1 && res < 0) vf_violation("C07", "sess:" #P ":valid-packet-rejected", "\"n0\":\"%s\",\"packet\":%u,\"mlen\":%zu,\"res\":%d,\"note\":\"the one-shot decryption of the same packet succeeds\"", vf_h(n0, 16), i, mlen, res); \
+            if (nonce_ok && mode == 1 && res >= 0) vf_eq("C07", "sess:" #P ":packet-plaintext", "packet i decrypted on a used state vs one-shot", m2, m, mlen, "\"packet\":%u", i); \
             if (mode == 1) vf_eq("C14", "sess:" #P ":packet-plaintext", "decrypted packet", m2, m, mlen, "\"packet\":%u", i); \
             vf_out_int(res < 0);                                                                      \
         }                                                                                             \
